@@ -192,11 +192,12 @@ func (in *Interp) exec(s Stmt, sc *scope) (signal, Val) {
 		sc.vars[st.Name] = &cell{v}
 	case *Assign:
 		get, set := in.place(st.LHS, sc)
-		rhs := in.eval(st.RHS, sc)
 		if st.Op == "=" {
-			set(copyVal(rhs))
+			set(copyVal(in.eval(st.RHS, sc)))
 		} else {
-			cur := get().(*big.Int)
+			// left to right: `place op= rhs` reads the place, then evaluates rhs
+			cur := new(big.Int).Set(get().(*big.Int))
+			rhs := in.eval(st.RHS, sc)
 			set(in.arith(st.LHS.Type(), st.Op[:1], cur, rhs.(*big.Int)))
 		}
 	case *IncDec:
